@@ -328,6 +328,21 @@ VARIANTS = [
     V('GainLimiter', 'GainLimiter'), V('Piecewise', 'Piecewise', PW), V('DeadBand1', 'DeadBand1'),
 ]
 
+# documented limits (docstrings of block.py): variant -> [(limiter, limited variable, lower bound, upper bound)].
+# "Limits lower and upper are on the final output, and aw_lower aw_upper are on the integrator" (PIAWHardLimit).
+DOC_LIMITS = {
+    'PIAWHardLimit': [('B_aw', 'B_xi', 'aw_lower', 'aw_upper'), ('B_hl', 'B_yul', 'lower', 'upper')],
+    'PIDAWHardLimit': [('B_aw', 'B_xi', 'aw_lower', 'aw_upper'), ('B_hl', 'B_yul', 'lower', 'upper')],
+    'PITrackAW': [('B_lim', 'B_ys', 'lower', 'upper')],
+    'PIDTrackAW': [('B_lim', 'B_ys', 'lower', 'upper')],
+    'PITrackAWFreeze': [('B_lim', 'B_ys', 'lower', 'upper')],
+    'IntegratorAntiWindup': [('B_lim', 'B_y', 'lower', 'upper')],
+    'LagAntiWindup': [('B_lim', 'B_y', 'lower', 'upper')],
+    'LagAWFreeze': [('B_lim', 'B_y', 'lower', 'upper')],
+    'LagAntiWindupRate': [('B_lim', 'B_y', 'lower', 'upper')],
+    'LeadLagLimit': [('B_lim', 'B_ynl', 'lower', 'upper')],
+    'GainLimiter': [('B_lim', 'B_x', 'lower', 'upper')],
+}
 IN = {'B_lim_zi': 1, 'B_lim_zl': 0, 'B_lim_zu': 0}      # inside the limits of `lim`
 INHL = {'B_hl_zi': 1, 'B_hl_zl': 0, 'B_hl_zu': 0}
 WASH = {'B_LT_z0': 1, 'B_LT_z1': 0}
